@@ -3,6 +3,8 @@ package logqlmetric
 import (
 	"regexp"
 
+	"github.com/cespare/xxhash/v2"
+
 	"github.com/tdakkota/docker-logql/internal/logql"
 	"github.com/tdakkota/docker-logql/internal/lokiapi"
 )
@@ -27,8 +29,11 @@ type AggregatedLabels interface {
 
 type emptyLabels struct{}
 
-func (l *emptyLabels) By(_ ...logql.Label) AggregatedLabels                      { return l }
-func (l *emptyLabels) Without(_ ...logql.Label) AggregatedLabels                 { return l }
-func (l *emptyLabels) Key() GroupingKey                                          { return 0 }
+func (l *emptyLabels) By(_ ...logql.Label) AggregatedLabels      { return l }
+func (l *emptyLabels) Without(_ ...logql.Label) AggregatedLabels { return l }
+
+// Key returns the same key as any other label set that has no visible labels,
+// so that vector(c) matches series without labels in binary operations.
+func (l *emptyLabels) Key() GroupingKey                                          { return xxhash.New().Sum64() }
 func (l *emptyLabels) Replace(_, _, _ string, _ *regexp.Regexp) AggregatedLabels { return l }
 func (l *emptyLabels) AsLokiAPI() lokiapi.LabelSet                               { return lokiapi.LabelSet{} }
